@@ -118,6 +118,16 @@ Theorem C05_nts_authentic : forall open (sealed : bytes -> bytes -> bytes -> byt
 Proof. exact nts_accept_authentic. Qed.
 Print Assumptions C05_nts_authentic.
 
+(* skipped and failing datagrams leave nothing behind: every cookie stored in the
+   fetcher's pool during an exchange was handed over by a delivered datagram that
+   carries the request's unique identifier and verifies under the S2C key *)
+Theorem C05_stored_cookies_authentic : forall open q evs nr c,
+  In c (loop_cookies open q nr evs) ->
+  exists g cs, In (EvDgram g) evs /\ nts_ok open q (g_payload g) /\
+               nts_check open q (g_payload g) = Ok cs /\ In c cs.
+Proof. exact loop_cookies_authentic. Qed.
+Print Assumptions C05_stored_cookies_authentic.
+
 (* MeasureClockOffsetIP (one to three exchanges): an offset is returned only
    as the offset of a datagram that was genuine for the request outstanding
    in its exchange *)
